@@ -18,7 +18,6 @@ import (
 	"math/rand"
 	"os"
 	"path/filepath"
-	"regexp"
 	"runtime"
 	"sort"
 	"strings"
@@ -34,7 +33,7 @@ var dumperSrc string
 
 // caseOp is one case (also the shape of a replay file's "case").
 type caseOp struct {
-	Kind   string            `json:"kind"` // valid | malformed | bindings
+	Kind   string            `json:"kind"` // valid | invalid (one known side condition broken) | malformed | bindings
 	Files  map[string]string `json:"files,omitempty"`
 	Main   string            `json:"main,omitempty"`
 	Origin string            `json:"origin,omitempty"`
@@ -130,8 +129,6 @@ type caseResult struct {
 	accepted bool
 }
 
-var dumpers sync.Pool
-
 func runCase(e *env, c *caseOp, model map[string]string, skipReal bool) *caseResult {
 	r := &caseResult{c: c, model: model}
 	dir := filepath.Join(e.base, "cases", fmt.Sprintf("c%d", c.ID))
@@ -185,8 +182,6 @@ func classOf(ans string) string {
 	f := strings.SplitN(ans, " ", 2)
 	return f[0]
 }
-
-var reHexName = regexp.MustCompile(`[^A-Za-z0-9_.-]+`)
 
 func trunc(s string) string {
 	if len(s) > 600 {
@@ -282,11 +277,19 @@ func evaluate(e *env, r *caseResult, res *common.Result, verbose bool) {
 				What: "tars2go hits a Go runtime error (recovered and printed) instead of diagnosing the input",
 				Case: common.Case{Stream: "tool", Op: c, Impl: trunc(r.tool.Stdout)}})
 		}
+		if c.Kind == "invalid" {
+			res.Histogram["invalid:rejected"]++
+		}
 		if c.Kind == "valid" {
 			res.Violate(common.Violation{Signature: "C16:valid-rejected:" + diagLocus(r.tool.Stdout+" "+r.tool.Stderr),
 				What: "a valid IDL program of the supported language is rejected: " + trunc(strings.TrimSpace(r.tool.Stdout)),
 				Case: common.Case{Stream: "tool", Op: c, Impl: "diag " + trunc(r.tool.Stdout), Note: "edge construct: " + c.Edge}})
 		}
+	}
+	if c.Kind == "invalid" && r.tool.Class == "ok" {
+		res.Violate(common.Violation{Signature: "C16:invalid-accepted:" + c.Edge,
+			What: "a program that violates a side condition of the language (" + c.Edge + ") is accepted without a diagnostic",
+			Case: common.Case{Stream: "tool", Op: c, Model: trunc(r.model["tool"]), Impl: "ok"}})
 	}
 	if r.parImpl == "hang" && r.tool.Class != "hang" {
 		res.Violate(common.Violation{Signature: "C16:hang:parse.NewParse",
@@ -373,7 +376,7 @@ func main() {
 		res.Fatal(o.Out, err)
 	}
 
-	// which variant is this tree? (probe the two witnesses once)
+	// which variant is this tree? (one witness per defect, once)
 	e.probeVariant()
 	res.Note("tree variant flags %s (1 = repaired, 0 = as found: enumEof/D5, typeDefByte/D6, enumRefCase, defaultEnumCase, arrayDepend)", e.flags)
 
@@ -392,27 +395,8 @@ func main() {
 		c.ID = i
 	}
 
-	// model answers for everything, in one batch
-	var lines []string
-	var idx []int
-	for i, c := range cases {
-		if c.Kind == "bindings" {
-			continue
-		}
-		hx := common.Hex(c.mainBytes())
-		lines = append(lines, "lex "+hx, "parse "+e.flags+" "+hx, "tool "+e.flags+" "+hx)
-		idx = append(idx, i)
-	}
-	ans, err := m.Batch(lines)
-	if err != nil {
-		fail(err)
-	}
-	models := make([]map[string]string, len(cases))
-	for k, i := range idx {
-		models[i] = map[string]string{"lex": ans[3*k], "parse": ans[3*k+1], "tool": ans[3*k+2]}
-	}
-
-	// run the real code (parallel workers), evaluate in case order
+	// chunk by chunk: model answers in one batch, the real code on parallel workers, evaluation in
+	// case order (results of valid programs are kept for the shared build)
 	results := make([]*caseResult, len(cases))
 	workers := runtime.NumCPU() / 2
 	if workers < 2 {
@@ -423,46 +407,80 @@ func main() {
 	}
 	var hangs int64
 	var mu sync.Mutex
-	jobs := make(chan int)
-	var wg sync.WaitGroup
-	for w := 0; w < workers; w++ {
-		wg.Add(1)
-		go func() {
-			defer wg.Done()
-			for i := range jobs {
-				c := cases[i]
-				if c.Kind == "bindings" {
-					continue
-				}
-				// once many hangs have been observed (as-found tree, thorough tier) further inputs on
-				// which the model predicts the same hang are not executed (each costs the full timeout)
-				mu.Lock()
-				skip := hangs >= 120 && c.Kind != "valid" && classOf(models[i]["tool"]) == "hang"
-				mu.Unlock()
-				r := runCase(e, c, models[i], skip)
-				if r.tool.Class == "hang" {
-					mu.Lock()
-					hangs++
-					mu.Unlock()
-				}
-				results[i] = r
-			}
-		}()
-	}
-	for i := range cases {
-		jobs <- i
-	}
-	close(jobs)
-	wg.Wait()
-	closeDumpers()
-
-	for i, c := range cases {
-		if c.Kind == "bindings" {
-			checkBindings(e, c, res, replay)
-			continue
+	const chunk = 3000
+	for lo := 0; lo < len(cases); lo += chunk {
+		hi := lo + chunk
+		if hi > len(cases) {
+			hi = len(cases)
 		}
-		evaluate(e, results[i], res, replay)
+		var lines []string
+		var idx []int
+		for i := lo; i < hi; i++ {
+			c := cases[i]
+			if c.Kind == "bindings" {
+				continue
+			}
+			hx := common.Hex(c.mainBytes())
+			lines = append(lines, "lex "+hx, "parse "+e.flags+" "+hx, "tool "+e.flags+" "+hx)
+			idx = append(idx, i)
+		}
+		ans, err := m.Batch(lines)
+		if err != nil {
+			fail(err)
+		}
+		models := map[int]map[string]string{}
+		for k, i := range idx {
+			models[i] = map[string]string{"lex": ans[3*k], "parse": ans[3*k+1], "tool": ans[3*k+2]}
+		}
+		jobs := make(chan int)
+		var wg sync.WaitGroup
+		for w := 0; w < workers; w++ {
+			wg.Add(1)
+			go func() {
+				defer wg.Done()
+				for i := range jobs {
+					c := cases[i]
+					// once many hangs have been observed (as-found tree, thorough tier) further inputs
+					// on which the model predicts the same hang are not executed (each costs the full
+					// timeout)
+					mu.Lock()
+					skip := hangs >= 120 && c.Kind != "valid" && classOf(models[i]["tool"]) == "hang"
+					mu.Unlock()
+					r := runCase(e, c, models[i], skip)
+					if r.tool.Class == "hang" {
+						mu.Lock()
+						hangs++
+						mu.Unlock()
+					}
+					results[i] = r
+				}
+			}()
+		}
+		for _, i := range idx {
+			jobs <- i
+		}
+		close(jobs)
+		wg.Wait()
+		for i := lo; i < hi; i++ {
+			c := cases[i]
+			if c.Kind == "bindings" {
+				checkBindings(e, c, res, replay)
+				continue
+			}
+			before := len(res.Violations) + len(res.Divergences)
+			if len(res.Samples) < 4 {
+				res.Sample(map[string]string{"kind": c.Kind, "origin": c.Origin, "main": trunc(string(c.mainBytes()))})
+			}
+			evaluate(e, results[i], res, replay)
+			if c.Kind != "valid" {
+				results[i] = nil
+				if len(res.Violations)+len(res.Divergences) == before {
+					c.Files = nil // release the text of cases nothing refers to
+				}
+			}
+		}
 	}
+	closeDumpers()
 
 	// compile all accepted valid programs in one go, then compare the emitted schema
 	compileAndCheck(e, cases, results, res, replay)
@@ -474,11 +492,6 @@ func main() {
 		"under grammar:*; one exotic construct per program under edge:*), (b) malformed inputs: truncation at every token boundary, token and byte " +
 		"mutations, token soup, random bytes, hand-written prefixes, the framework's own .tars files truncated; each input goes through the real " +
 		"lexer, the real parse.NewParse, the real tars2go binary and the Lean model; non-trivial = distinct non-empty main-file contents"
-	if len(cases) > 0 {
-		for _, c := range cases[:min(4, len(cases))] {
-			res.Sample(map[string]string{"kind": c.Kind, "origin": c.Origin, "main": trunc(string(c.mainBytes()))})
-		}
-	}
 	if err := res.Write(o.Out); err != nil {
 		panic(err)
 	}
@@ -570,7 +583,7 @@ func genCases(e *env, o *common.Opts, rng *rand.Rand, res *common.Result) []*cas
 
 	nCore, perEdge, nMal := 16, 1, 700
 	if o.Thorough() {
-		nCore, perEdge, nMal = 110, 5, 20000
+		nCore, perEdge, nMal = 150, 6, 120000
 	}
 	id := 100
 	var bases []string   // texts to mutate
@@ -590,6 +603,23 @@ func genCases(e *env, o *common.Opts, rng *rand.Rand, res *common.Result) []*cas
 			p := GenProg(rng, id, edge, false)
 			cases = append(cases, progCase(p, rng, false))
 			id++
+		}
+	}
+	// grammar-aware invalidation: valid programs broken in exactly one known way must be rejected
+	nInv := 2
+	if o.Thorough() {
+		nInv = 12
+	}
+	for _, kind := range invalidKinds {
+		for k := 0; k < nInv; k++ {
+			p := GenProg(rng, id, "", false)
+			id++
+			if !Invalidate(p, kind, rng) {
+				continue
+			}
+			c := progCase(p, rng, k%2 == 0)
+			c.Kind, c.Origin, c.Expect, c.Edge = "invalid", "invalidated:"+kind, nil, kind
+			cases = append(cases, c)
 		}
 	}
 	// the framework's own IDL files as further bases
